@@ -41,7 +41,7 @@ theorem arm_correct {V : Type} (ops : EqOps V) (k : Nat) (v : EqVariant) (hv : v
     rw [matchTuple_eq_envOf, matchTuple_eq_envOf]
     apply evalEqStmts_arm ops _ k bindTupSelf bindTupOther
       (by intro i c h; simp [bindTupSelf, h]) v.fields 0 xs ys hx hy
-    apply envOK_of_envOf
+    apply envOK_of_envOf _ EqField.ignore
     · intro j₁ j₂ c₁ c₂ x _ _ h1 h2
       unfold bindTupSelf at h1 h2
       split at h1 <;> split at h2 <;> simp_all
@@ -62,7 +62,7 @@ theorem arm_correct {V : Type} (ops : EqOps V) (k : Nat) (v : EqVariant) (hv : v
         matchNamed_eq_envOf k EqField.name bindNamedOther v.fields ys hnd hy]
     apply evalEqStmts_arm ops _ k bindNamedSelf bindNamedOther
       (by intro i c h; simp [bindNamedSelf, h]) v.fields 0 xs ys hx hy
-    apply envOK_of_envOf
+    apply envOK_of_envOf _ EqField.ignore
     · intro j₁ j₂ c₁ c₂ x g1 g2 h1 h2
       unfold bindNamedSelf at h1 h2
       split at h1 <;> split at h2 <;> simp_all
